@@ -280,6 +280,22 @@ CLAIMS["C14"] = dict(
     note="plan_predictor.split_filters is unreachable from from_query (dead code) and not analysed.",
     technique="abstract interpretation of process_predictor / columns-map / attribution over finite condition and option families")
 
+CLAIMS["C15"] = dict(
+    level="other", engine="pyflow",
+    text="The rows selected on data (ties, NULL times, empty partitions) are NOT decided. Decided: the queries the planner "
+         "builds. plan_timeseries_predictor, plan_fetch_timeseries_partitions, plan() and the four ts_utils helpers are "
+         "interpreted together on abstract stand-ins (fail-closed AST interpreter) for 9 time conditions (>, >=, =, <, <=, "
+         "BETWEEN, > LATEST, = LATEST, none) x partition filter position x 0..2 group columns x LIMIT: every fetch query is "
+         "compared with the reference window query (ORDER BY time DESC LIMIT window, bound = order-complement of the user's "
+         "lower bound, none for LATEST) and range query (the user's condition, no LIMIT), each with time IS NOT NULL, the "
+         "user's partition filter, one $var conjunct per group column and nothing else; the partition query is DISTINCT group "
+         "columns under the non-time filters; output_time_filter is the user's condition; the user's LIMIT appears in no "
+         "fetch and becomes a LimitOffsetStep on the JoinStep's result; ORDER BY / GROUP BY / HAVING / OFFSET / other columns "
+         "/ other operators / two time conditions end in PlanningException before any step is added.",
+    note="`time = v` is passed on as output filter `time > v`: pinned by test_join_predictor_timeseries_concrete_date_equal and "
+         "taken as reference. The dbt path (adapt_dbt_query) is not analysed.",
+    technique="abstract interpretation of the time-series planner and its helpers over the finite operator x filter x grouping space against reference window/range queries")
+
 NA_PENDING = "check under construction in this session; not claimed until its rule module is committed"
 
 
